@@ -662,10 +662,20 @@ func worker(t *testing.T, c core.Cfg) {
 				break
 			}
 			if strings.Join(tw.Results, "\x00") != strings.Join(o.Results, "\x00") {
-				part.HarnessErr = fmt.Sprintf("twin of plan %d not identical", seed)
-				break
+				// the same sources under the same schedule gave different results: with a
+				// replayable schedule (the trace was followed to the end) that is the
+				// compiler not being a function of its input, i.e. the property itself
+				for i := range tw.Results {
+					if tw.Results[i] != o.Results[i] {
+						vsNow = append(vsNow, V{"same-schedule-different-result", fmt.Sprintf("task %d (%s): two executions of the same plan under the same schedule differ: %s",
+							i, pl.Sources[i].Name, firstDiff(o.Results[i], tw.Results[i]))})
+						break
+					}
+				}
 			}
-			part.Twins++
+			if len(vsNow) == 0 {
+				part.Twins++
+			}
 		}
 		for _, v := range vsNow {
 			part.Counters.Inc("raw_violation_" + v.Class)
